@@ -5,6 +5,9 @@ import (
 	"fmt"
 	"math"
 	"math/cmplx"
+	"os"
+	"runtime"
+	"strings"
 	"sync/atomic"
 
 	"github.com/Trisia/randomness/fft"
@@ -254,13 +257,26 @@ func Run(ctx *common.Ctx) int {
 		}
 		evals++
 	}
-	if !quick {
-		f, err := fft.New(1 << 27)
-		if err != nil || f.N != 1<<27 {
-			report("New/2^27", fmt.Sprintf("fft.New(2^27) gives length %d, err %v; 2^27 is within the accepted range", f.N, err), nil)
+	if memAvailableGB() >= 12 {
+		// the largest admitted length is actually constructed (about 3 GB)
+		var f fft.FFT
+		var err error
+		pv := common.Catch(func() { f, err = fft.New(1 << 27) })
+		if pv != nil || err != nil || f.N != 1<<27 {
+			report("New/2^27", fmt.Sprintf("fft.New(2^27) gives length %d, err %v, panic %v; 2^27 is within the accepted range", f.N, err, pv), nil)
+		} else {
+			// spot entries of the tables: roots and bit-reversal permutation
+			for _, k := range []int{0, 1, 1 << 25, 1<<26 + 5, 1<<27 - 1} {
+				w := cmplx.Rect(1, -2*math.Pi*float64(k)/float64(1<<27))
+				if cmplx.Abs(f.E[k]-w) > 1e-12 {
+					report("New/2^27-roots", fmt.Sprintf("fft.New(2^27): root table entry %d is %v, expected %v", k, f.E[k], w), nil)
+				}
+			}
 		}
 		f = fft.FFT{}
+		runtime.GC()
 		evals++
+		constructed27 = true
 	}
 	// wrong-length slices are refused (panic), not computed
 	for _, N := range []int{2, 8, 1024} {
@@ -300,8 +316,26 @@ func Run(ctx *common.Ctx) int {
 		"samples":                      cmp.Samples(),
 		"exhaustive":                   exhaustive,
 		"worst_relative_error_large_N": worstRel,
+		"constructed_2^27":             constructed27,
 	}
 	return ctx.Finish("exploration", cov, []string{"oracle: closed forms exp(-2 pi i jk/N), naive DFT, recursive reference FFT", "complex inputs beyond the enumerated families are covered by linearity only up to floating-point accumulation"})
+}
+
+var constructed27 bool
+
+func memAvailableGB() int {
+	b, err := os.ReadFile("/proc/meminfo")
+	if err != nil {
+		return 0
+	}
+	for _, l := range strings.Split(string(b), "\n") {
+		if strings.HasPrefix(l, "MemAvailable:") {
+			var kb int
+			fmt.Sscanf(strings.TrimSpace(strings.TrimPrefix(l, "MemAvailable:")), "%d", &kb)
+			return kb / 1024 / 1024
+		}
+	}
+	return 0
 }
 
 func b2f(b bool) float64 {
